@@ -9,7 +9,8 @@ import sys
 import time
 
 VERIF = os.path.dirname(os.path.dirname(os.path.abspath(__file__)))
-WT = "/tmp/seedrepo"
+WT = os.environ.get("SEEDRUN_WT", "/tmp/seedrepo")
+TAG = os.environ.get("SEEDRUN_TAG", "seed")
 
 
 def sh(cmd, **kw):
@@ -33,7 +34,7 @@ def main():
     if r.returncode:
         print("patch does not apply:", r.stdout)
         return 2
-    env = dict(os.environ, VERIF_ALT_REPO=WT, VERIF_ALT_TAG="seed")
+    env = dict(os.environ, VERIF_ALT_REPO=WT, VERIF_ALT_TAG=TAG)
     out = []
     for c in checks:
         t = time.time()
